@@ -7,6 +7,7 @@ import (
 	"net"
 	"sort"
 	"strconv"
+	"sync"
 	"time"
 
 	"google.golang.org/grpc"
@@ -27,6 +28,11 @@ type RawNode struct {
 	conn   *grpc.ClientConn
 	cancel func()
 	mgr    *RawManager
+
+	// connMu orders dial (the channel's sender goroutine) and close (Manager.Close):
+	// conn is assigned under it, and not any more once closed is set.
+	connMu sync.Mutex
+	closed bool
 
 	// the default channel
 	channel *channel
@@ -73,6 +79,12 @@ func (n *RawNode) connect(mgr *RawManager) error {
 
 // dial the node and close the current connection.
 func (n *RawNode) dial() error {
+	n.connMu.Lock()
+	defer n.connMu.Unlock()
+	if n.closed {
+		// a connection made now would never be closed
+		return fmt.Errorf("node closed")
+	}
 	if n.conn != nil {
 		// close the current connection before dialing again.
 		n.conn.Close()
@@ -107,6 +119,10 @@ func (n *RawNode) close() error {
 	if n.cancel != nil {
 		n.cancel()
 	}
+	// no dial assigns conn after this point
+	n.connMu.Lock()
+	n.closed = true
+	n.connMu.Unlock()
 	if n.conn == nil {
 		return nil
 	}
